@@ -51,20 +51,22 @@ func pick[T any](r *hx.Rng, xs ...T) T { return xs[r.Intn(len(xs))] }
 
 // SpecKnobs lets a scenario bias the random preset.
 type SpecKnobs struct {
-	Epochs         int    // planned chain length in epochs: fork epochs are drawn so that they fall inside
-	PlainMinimal   bool   // minimal preset untouched except fork epochs
-	AllForksInside bool   // force all four fork epochs < Epochs-1
-	WideForks      bool   // fork epochs anywhere in 1..epochs-4 instead of 1..6
-	ForkBias       string // "late": forks at the last four possible epochs; "early": 1,2,3,4
-	ShortSlashings bool   // EPOCHS_PER_SLASHINGS_VECTOR 4, MIN_VALIDATOR_WITHDRAWABILITY_DELAY 1: slashed validators become withdrawable within the chain
-	FastEth1       bool   // EPOCHS_PER_ETH1_VOTING_PERIOD 1
-	HugeRewards    bool   // BASE_REWARD_FACTOR 2^14..2^16: a missed epoch costs a noticeable share of an increment
-	StrongPenalty  bool   // large base reward / small inactivity quotients so balances move fast
-	EjectionNear   bool   // EJECTION_BALANCE one or two increments below MAX_EFFECTIVE_BALANCE
-	SmallChurn     bool
-	ShortLeak      bool
-	SmallSweep     bool
-	SyncAtFork     bool // make a sync committee period boundary coincide with a fork epoch
+	Epochs             int    // planned chain length in epochs: fork epochs are drawn so that they fall inside
+	PlainMinimal       bool   // minimal preset untouched except fork epochs
+	AllForksInside     bool   // force all four fork epochs < Epochs-1
+	WideForks          bool   // fork epochs anywhere in 1..epochs-4 instead of 1..6
+	ForkBias           string // "late": forks at the last four possible epochs; "early": 1,2,3,4
+	OddVectors         bool   // non-power-of-two EPOCHS_PER_HISTORICAL_VECTOR / EPOCHS_PER_SLASHINGS_VECTOR / SLOTS_PER_HISTORICAL_ROOT
+	PenaltyWhileActive bool   // EPOCHS_PER_SLASHINGS_VECTOR 8, delay 1, MAX_SEED_LOOKAHEAD 4, multipliers 3: the correlation penalty hits validators that stay active
+	ShortSlashings     bool   // EPOCHS_PER_SLASHINGS_VECTOR 4, MIN_VALIDATOR_WITHDRAWABILITY_DELAY 1: slashed validators become withdrawable within the chain
+	FastEth1           bool   // EPOCHS_PER_ETH1_VOTING_PERIOD 1
+	HugeRewards        bool   // BASE_REWARD_FACTOR 2^14..2^16: a missed epoch costs a noticeable share of an increment
+	StrongPenalty      bool   // large base reward / small inactivity quotients so balances move fast
+	EjectionNear       bool   // EJECTION_BALANCE one or two increments below MAX_EFFECTIVE_BALANCE
+	SmallChurn         bool
+	ShortLeak          bool
+	SmallSweep         bool
+	SyncAtFork         bool // make a sync committee period boundary coincide with a fork epoch
 }
 
 // ForkSchedule draws sorted fork epochs. Later forks may be equal to earlier ones or FAR_FUTURE.
@@ -223,7 +225,21 @@ func TinySpec(r *hx.Rng, k SpecKnobs) *common.Spec {
 	if k.FastEth1 {
 		sp.EPOCHS_PER_ETH1_VOTING_PERIOD = 1
 	}
-	if k.ShortSlashings {
+	if k.OddVectors {
+		spe := uint64(sp.SLOTS_PER_EPOCH)
+		sp.SLOTS_PER_HISTORICAL_ROOT = common.Slot(spe * uint64(pick(r, 3, 5, 6)))
+		sp.EPOCHS_PER_HISTORICAL_VECTOR = common.Epoch(pick(r, 9, 12, 24, 40))
+		sp.EPOCHS_PER_SLASHINGS_VECTOR = common.Epoch(pick(r, 5, 6, 7))
+	}
+	if k.PenaltyWhileActive {
+		// slashed at s with exit X = s+1+4+q: withdrawable = max(X+1, s+8); penalty epoch = withdrawable-4 < X-1 for q >= 1
+		sp.EPOCHS_PER_SLASHINGS_VECTOR = 8
+		sp.MIN_VALIDATOR_WITHDRAWABILITY_DELAY = 1
+		sp.MAX_SEED_LOOKAHEAD = 4
+		sp.PROPORTIONAL_SLASHING_MULTIPLIER = 3
+		sp.PROPORTIONAL_SLASHING_MULTIPLIER_ALTAIR = 3
+		sp.PROPORTIONAL_SLASHING_MULTIPLIER_BELLATRIX = 3
+	} else if k.ShortSlashings {
 		sp.EPOCHS_PER_SLASHINGS_VECTOR = 4
 		sp.MIN_VALIDATOR_WITHDRAWABILITY_DELAY = 1
 		sp.MAX_SEED_LOOKAHEAD = common.Epoch(pick(r, 1, 2))
@@ -235,7 +251,9 @@ func TinySpec(r *hx.Rng, k SpecKnobs) *common.Spec {
 		sp.MIN_SLASHING_PENALTY_QUOTIENT = view.Uint64View(pick(r, 8, 32, 64))
 		sp.MIN_SLASHING_PENALTY_QUOTIENT_ALTAIR = view.Uint64View(pick(r, 8, 32, 64))
 		sp.MIN_SLASHING_PENALTY_QUOTIENT_BELLATRIX = view.Uint64View(pick(r, 8, 32))
-		sp.PROPORTIONAL_SLASHING_MULTIPLIER = view.Uint64View(pick(r, 1, 2, 3))
+		if !k.PenaltyWhileActive {
+			sp.PROPORTIONAL_SLASHING_MULTIPLIER = view.Uint64View(pick(r, 1, 2, 3))
+		}
 		sp.WHISTLEBLOWER_REWARD_QUOTIENT = view.Uint64View(pick(r, 16, 512))
 	}
 	if k.SyncAtFork {
